@@ -1,55 +1,83 @@
-(* C10, Maven part: a version's canonical string denotes the same version.  Statements only. *)
+(* C10, Maven part: a version's canonical string denotes the same version.  Statements only.
+   The model follows the tree through two booleans read by gotables from maven.go: h = a non-zero
+   separator of the first element is printed (false: never, as found, F-C10-2; true: the repair),
+   z = the variant of the zero test of the trimming loop.  maven_canon, mvn_parse, printable_b and
+   mvn_roundtrip are the tree's variants. *)
 From DepsDev Require Import Lib.Base Semver.Version Semver.Compare Semver.Maven Semver.MavenParse Semver.MavenDomain
-  Semver.MavenPrintable Semver.Maven_proofs Semver.Canon_mg_proofs Semver.MavenCanon_proofs.
+  Semver.MavenPrintable Semver.Maven_proofs Semver.Canon_mg_proofs Semver.MavenCanon_proofs Gen.MavenVariants.
 Local Open Scope Z_scope.
 
-(* The full statement, over all accepted strings (mvn_roundtrip s = the canonical string, and
-   for its re-parse the comparison with the original and the second canonical string). *)
-Definition C10_maven_full : Prop := forall s c r,
-  mvn_roundtrip s = Some (c, r) -> r = Some (0, c).
+(* The full statement, over all accepted strings (mvn_roundtrip_with h z s = the canonical string,
+   and for its re-parse the comparison with the original and the second canonical string). *)
+Definition C10_maven_full_with (h z : bool) : Prop := forall s c r,
+  mvn_roundtrip_with h z s = Some (c, r) -> r = Some (0, c).
 
-(* It is false on the code as it stands (F-C10-2): a version that starts with a separator keeps
-   the separator on its first element, which mavenExtension.canon never prints: -1 prints as 1,
-   and 1 compares 45 against -1. *)
-Theorem C10_maven_reparse_refuted : ~ C10_maven_full.
+(* With the printer as found it is false (F-C10-2): a version that starts with a separator keeps
+   the separator on its first element, which canon never prints: -1 prints as 1, and 1 compares
+   45 against -1. *)
+Theorem C10_maven_reparse_refuted : forall z, ~ C10_maven_full_with false z.
 Proof.
-  intros F. destruct maven_leadsep_witness as [W _]. specialize (F _ _ _ W). discriminate.
+  intros z F. destruct (maven_leadsep_witness z) as [W _]. specialize (F _ _ _ W). discriminate.
 Qed.
 Print Assumptions C10_maven_reparse_refuted.
 
-(* Consequently two versions with the same canonical string may compare different. *)
-Theorem C10_maven_inj_refuted :
-  mvn_roundtrip s_m1 = Some (s_one, Some (45, s_one)) /\ mvn_roundtrip s_one = Some (s_one, Some (0, s_one)) /\
-  mvn_cmp_str s_m1 s_one = Some 45.
-Proof. exact (conj (proj1 maven_leadsep_witness) (conj (proj2 maven_leadsep_witness) maven_inj_witness)). Qed.
+(* Consequently two versions with the same canonical string compare different; with the first
+   separator printed the same strings go round (third and fourth clause). *)
+Theorem C10_maven_witnesses : forall z,
+  (mvn_roundtrip_with false z s_m1 = Some (s_one, Some (45, s_one)) /\
+   mvn_roundtrip_with false z s_one = Some (s_one, Some (0, s_one)) /\
+   mvn_roundtrip_with true z s_m1 = Some (s_m1, Some (0, s_m1)) /\
+   mvn_roundtrip_with true z s_one = Some (s_one, Some (0, s_one))) /\
+  mvn_cmp_str z s_m1 s_one = Some 45.
+Proof. intros z. exact (conj (maven_leadsep_witness z) (maven_inj_witness z)). Qed.
 
-(* The root cause, for all element lists: the printer does not depend on the separator of the
-   first element ... *)
-Theorem C10_maven_canon_head : forall l, maven_canon (head_sep0 l) = maven_canon l.
+(* What the tree does with the witness. *)
+Theorem C10_maven_tree :
+  mvn_roundtrip s_m1 = if go_mvn_canon_head_sep then Some (s_m1, Some (0, s_m1)) else Some (s_one, Some (45, s_one)).
+Proof. exact maven_leadsep_tree. Qed.
+Print Assumptions C10_maven_tree.
+
+(* The root cause, for all element lists: the printer as found does not depend on the separator
+   of the first element. *)
+Theorem C10_maven_canon_head : forall l, maven_canon_with false (head_sep0 l) = maven_canon_with false l.
 Proof. exact maven_canon_head. Qed.
 Print Assumptions C10_maven_canon_head.
 
-(* What holds, for ALL element lists of MavenPrintable.printable_b (texts homogeneous and
-   lower-case, separators '.' or '-', inside the modelled fragment, fixed points of the trimming
-   loop and of the integer pass -- the harness checks on every generated string that the parsed
-   list is one, kind svm_maven_printable): the canonical string parses, to the same list with the
-   first separator set to 0 ... *)
-Theorem C10_maven_roundtrip_partial : forall l, printable_b l = true ->
-  exists b, mvn_parse (maven_canon l) = Some (Ok (mk_version (maven_canon l) (head_sep0 l) b)).
-Proof. exact maven_roundtrip. Qed.
+(* What holds under every variant, for ALL element lists of printable_with h z (texts homogeneous
+   and lower-case, separators '.' or '-', inside the modelled fragment, fixed points of the
+   trimming loop and of the integer pass -- the harness checks on every generated string that the
+   parsed list is one, kind svm_maven_printable): the canonical string parses, to the same list
+   (h = true) or to the same list with the first separator set to 0 (h = false) ... *)
+Theorem C10_maven_roundtrip_partial : forall h z l, printable_with h z l = true ->
+  exists b, mvn_parse_with z (maven_canon_with h l) =
+            Some (Ok (mk_version (maven_canon_with h l) (head_with h l) b)).
+Proof. exact maven_roundtrip_with. Qed.
 Print Assumptions C10_maven_roundtrip_partial.
 
-(* ... hence the three clauses (re-parse, compare 0, same canonical string) for the lists whose
-   first separator is 0, i.e. the versions that do not start with a separator ... *)
-Theorem C10_maven_clauses_partial : forall l, printable_b l = true -> head_sep0 l = l ->
-  exists b, mvn_parse (maven_canon l) = Some (Ok (mk_version (maven_canon l) l b)) /\
-            maven_compare l l = Ok 0 /\ maven_canon l = maven_canon l.
+(* ... for the tree: *)
+Theorem C10_maven_roundtrip_tree : forall l, printable_b l = true ->
+  exists b, mvn_parse (maven_canon l) = Some (Ok (mk_version (maven_canon l) (head_with go_mvn_canon_head_sep l) b)).
+Proof. exact maven_roundtrip. Qed.
+Print Assumptions C10_maven_roundtrip_tree.
+
+(* ... hence the clauses (re-parse to the same list, compare 0 -- and then the same canonical
+   string again): with the repaired printer for EVERY printable list (head_with true l = l),
+   with the printer as found for the lists whose first separator is 0 ... *)
+Theorem C10_maven_clauses_partial : forall h z l, printable_with h z l = true -> head_with h l = l ->
+  exists b, mvn_parse_with z (maven_canon_with h l) = Some (Ok (mk_version (maven_canon_with h l) l b)) /\
+            maven_compare l l = Ok 0.
 Proof. exact maven_roundtrip_clauses. Qed.
 Print Assumptions C10_maven_clauses_partial.
 
+Theorem C10_maven_clauses_repaired : forall z l, printable_with true z l = true ->
+  exists b, mvn_parse_with z (maven_canon_with true l) = Some (Ok (mk_version (maven_canon_with true l) l b)) /\
+            maven_compare l l = Ok 0.
+Proof. intros z l P. exact (maven_roundtrip_clauses true z l P (head_with_true l)). Qed.
+Print Assumptions C10_maven_clauses_repaired.
+
 (* ... and two such lists with the same canonical string are the same list (so compare 0). *)
-Theorem C10_maven_inj_partial : forall l1 l2, printable_b l1 = true -> printable_b l2 = true ->
-  head_sep0 l1 = l1 -> head_sep0 l2 = l2 -> maven_canon l1 = maven_canon l2 -> l1 = l2.
+Theorem C10_maven_inj_partial : forall h z l1 l2, printable_with h z l1 = true -> printable_with h z l2 = true ->
+  head_with h l1 = l1 -> head_with h l2 = l2 -> maven_canon_with h l1 = maven_canon_with h l2 -> l1 = l2.
 Proof. exact maven_canon_inj. Qed.
 Print Assumptions C10_maven_inj_partial.
 
